@@ -14,7 +14,9 @@ Node shapes:
 """
 
 ADVERSARIAL = ["'", '"', "\\", "\n", "\r", "\t", " ", "\x00", "\x7f", "\xe4", "\U0001f40d", "\u2028", "\u0085",
-               "{", "}", "#", "\x0c", "a", "b", "Z", "0", "'''", '"""', "\\n", " \n", "\n ", "\xe9"]
+               "{", "}", "#", "\x0c", "a", "b", "Z", "0", "'''", '"""', "\\n", " \n", "\n ", "\xe9",
+               # text that looks like (generated) python source
+               "_ = ", " = ", "snapshot(", "external(", "x=1", "%s", "\\N{DASH}", "\\x41", "u'", "rb\""]
 PLAIN = list("abcxyz01 _-")
 CORE12 = ["'", '"', "\\", "\n", "\r", " ", "a", "\t", "\xe4", "\x00", "#", "{"]
 
